@@ -17,6 +17,8 @@ Replacements == {NStr(T_x), NStr(<<>>), NInt(5), NInt(0 - 1), NFloat(3, 2), NBoo
                  NFloat(1, 0), NFloat(0, 0),                   \* .inf  .nan  (denominator 0 marks the special floats)
                  NList(<<NList(<<NStr(T_x)>>)>>), NList(<<NMap(<<>>), NInt(2)>>),     \* nested list, list of map and number
                  NInt(2147483647),
+                 \* a condition text nested twenty parentheses deep (valid by the grammar, deep for a recursive parser)
+                 NStr([i \in 1..41 |-> IF i <= 20 THEN 40 ELSE IF i = 21 THEN 120 ELSE 41]),
                  \* well-formed texts of days that do not exist
                  NStr(<<50,48,50,51,45,48,50,45,51,48>>), NStr(<<50,48,50,51,47,54,47,51,49>>), NStr(<<50,49,48,48,45,48,50,45,50,57>>)}     \* 2023-02-30  2023/6/31  2100-02-29
 \* key markers understood by the driver: \x01i = integer 5, \x01b = true, \x01n = null
